@@ -8,8 +8,10 @@
 (* at a selected path becomes a pointer (and its bytes an object in local  *)
 (* storage); Export(sel) turns pointers at selected paths back into        *)
 (* ordinary files.  repr[c][p] is the representation the rewritten commit  *)
-(* c must have at path p; content, graph shape, authorship, dates and      *)
-(* messages are never an argument of the rewrite.                          *)
+(* c must have at path p; content, mode, graph shape, authorship, dates    *)
+(* and messages are never an argument of the rewrite.  exec[c] is the set  *)
+(* of paths that are executable in commit c; Chmod makes a commit that     *)
+(* changes nothing but one path's mode.                                    *)
 (***************************************************************************)
 EXTENDS Repo
 
@@ -17,20 +19,33 @@ CONSTANTS Selections       \* sets of paths the --include pattern can denote
 
 VARIABLES repr,     \* <<commit, path>> -> "none" | "raw" | "ptr" after the rewrites so far
           tagged,   \* commit carrying the tag v1 (annotated), or NoCommit
-          phase     \* "history" | "imported" | "exported"
-mvars == <<rvars, repr, tagged, phase, steps, hist>>
-MView == <<rvars, repr, tagged, phase>>
+          phase,    \* "history" | "imported" | "exported"
+          exec      \* commit -> set of executable paths (never touched by a rewrite)
+mvars == <<rvars, repr, tagged, phase, exec, steps, hist>>
+MView == <<rvars, repr, tagged, phase, exec>>
 
 ReprOf(blob) == IF blob = "none" THEN "none" ELSE IF blob = "raw" THEN "raw" ELSE "ptr"
 CurRepr == [c \in 1..Len(commits) |-> [p \in Paths |-> ReprOf(commits[c].tree[p])]]
 
-MInit == RepoInit /\ repr = <<>> /\ tagged = NoCommit /\ phase = "history"
+MInit == RepoInit /\ repr = <<>> /\ tagged = NoCommit /\ phase = "history" /\ exec = <<>>
 
 Hist == phase = "history" /\ UNCHANGED <<repr, tagged, phase>>
-MCommit(b, p, blob, g) == Hist /\ Commit(b, p, blob, g)
-MMerge(b, o)           == Hist /\ Merge(b, o)
+ExecOf(c) == IF c = NoCommit THEN {} ELSE exec[c]
+\* a new commit keeps its first parent's modes, except that the path it writes is written as an
+\* ordinary file; the merge commits of this model write every path afresh (no executable left)
+MCommit(b, p, blob, g) == /\ Hist /\ Commit(b, p, blob, g)
+                          /\ LET parent == IF br[b] = NoCommit /\ b # "main" THEN br["main"] ELSE br[b]
+                             IN exec' = Append(exec, ExecOf(parent) \ {p})
+MMerge(b, o)           == /\ Hist /\ Merge(b, o) /\ exec' = Append(exec, {})
+\* git update-index --chmod=+x / -x ; git commit: nothing but the mode of p changes
+Chmod(b, p) == /\ Hist /\ Len(commits) < MaxCommits /\ br[b] # NoCommit /\ commits[br[b]].tree[p] # "none"
+               /\ commits' = Append(commits, [par |-> {br[b]}, tree |-> commits[br[b]].tree, age |-> commits[br[b]].age])
+               /\ br' = [br EXCEPT ![b] = Len(commits) + 1] /\ head' = b
+               /\ exec' = Append(exec, IF p \in exec[br[b]] THEN exec[br[b]] \ {p} ELSE exec[br[b]] \cup {p})
+               /\ UNCHANGED <<rr, rt, local, server, everRemote>>
+               /\ Log([a |-> "chmod", b |-> b, p |-> p, x |-> (p \notin exec[br[b]])])
 Tag(b) == /\ phase = "history" /\ tagged = NoCommit /\ br[b] # NoCommit /\ tagged' = br[b]
-          /\ UNCHANGED <<commits, br, rr, rt, head, local, server, everRemote, repr, phase>>
+          /\ UNCHANGED <<commits, br, rr, rt, head, local, server, everRemote, repr, phase, exec>>
           /\ Log([a |-> "tag", b |-> b])
 
 Import(sel) ==
@@ -38,21 +53,22 @@ Import(sel) ==
   /\ repr' = [c \in 1..Len(commits) |-> [p \in Paths |->
                  IF p \in sel /\ commits[c].tree[p] = "raw" THEN "ptr" ELSE ReprOf(commits[c].tree[p])]]
   /\ phase' = "imported"
-  /\ UNCHANGED <<commits, br, rr, rt, head, local, server, everRemote, tagged>>
-  /\ Log([a |-> "import", sel |-> sel, repr |-> repr', parents |-> [c \in 1..Len(commits) |-> commits[c].par],
+  /\ UNCHANGED <<commits, br, rr, rt, head, local, server, everRemote, tagged, exec>>
+  /\ Log([a |-> "import", sel |-> sel, repr |-> repr', exec |-> exec, parents |-> [c \in 1..Len(commits) |-> commits[c].par],
           heads |-> br, tagged |-> tagged])
 
 Export(sel) ==
   /\ phase = "imported" /\ sel \in Selections
   /\ repr' = [c \in 1..Len(commits) |-> [p \in Paths |-> IF p \in sel /\ repr[c][p] = "ptr" THEN "raw" ELSE repr[c][p]]]
   /\ phase' = "exported"
-  /\ UNCHANGED <<commits, br, rr, rt, head, local, server, everRemote, tagged>>
-  /\ Log([a |-> "export", sel |-> sel, repr |-> repr', parents |-> [c \in 1..Len(commits) |-> commits[c].par],
+  /\ UNCHANGED <<commits, br, rr, rt, head, local, server, everRemote, tagged, exec>>
+  /\ Log([a |-> "export", sel |-> sel, repr |-> repr', exec |-> exec, parents |-> [c \in 1..Len(commits) |-> commits[c].par],
           heads |-> br, tagged |-> tagged])
 
 MNext == \/ \E b \in Branches, p \in Paths, blob \in Blobs, g \in Ages : MCommit(b, p, blob, g)
          \/ \E b, o \in Branches : MMerge(b, o)
          \/ \E b \in Branches : Tag(b)
+         \/ \E b \in Branches, p \in Paths : Chmod(b, p)
          \/ \E s \in Selections : Import(s) \/ Export(s)
 MSpec == MInit /\ [][MNext]_mvars
 
